@@ -155,6 +155,14 @@ def def_rs(model):
     return XRS if model == "xmile" else DEF_RS
 
 
+MRS_CHOICES = [(0, 4, 2), (1, 5, 2), (2, 6, 2), (1, 4, 1)]      # the DSL model's own run specs; wave 4: non-zero start times
+
+
+def mrs_of(case):
+    """the model's own run specs of this case"""
+    return XRS if case["model"] == "xmile" else tuple(case.get("mrs") or DEF_RS)
+
+
 # ---------------------------------------------------------------- value forms (float / int / string = eval path)
 def ccode(v):
     return int(eval(v)) if isinstance(v, str) else int(v)
@@ -191,8 +199,9 @@ def mk_dict(case, where, d=None):
     if d.get("pts"):
         out["points"] = {pn[k]: pts_render(v, sty.get(("p", k))) for k, v in d["pts"].items()}
     rs = {}
-    if d.get("start") is not None: rs["starttime"] = float(d["start"])
-    if d.get("stop") is not None: rs["stoptime"] = float(d["stop"])
+    num = lambda key, v: int(v) if sty.get(("r", key)) == "int" else float(v)      # `starttime: 0` as well as `starttime: 0.0`
+    if d.get("start") is not None: rs["starttime"] = num("start", d["start"])
+    if d.get("stop") is not None: rs["stoptime"] = num("stop", d["stop"])
     if d.get("dt") is not None: rs["dt"] = d["dt"] / 2.0
     if rs:
         out["runspecs"] = rs
@@ -239,7 +248,7 @@ def expected(case, who="d0"):
     d = (case.get("d") or {}) if who == "d0" else {}
     consts = fill(d0.get("consts") or {}, bc); consts.update(d.get("consts") or {})
     pts = fill(d0.get("pts") or {}, bp); pts.update(d.get("pts") or {})
-    rs = list(def_rs(case["model"]))
+    rs = list(mrs_of(case))
     for src in (d0, d):
         for j, key in enumerate(("start", "stop", "dt")):
             if src.get(key) is not None:
@@ -254,7 +263,7 @@ def file_list(case):
 
 
 def model_line(case, who="d0"):
-    mrs = "/".join(map(str, def_rs(case["model"]))); mpts = K.st(DEF_PTS)
+    mrs = "/".join(map(str, mrs_of(case))); mpts = K.st(DEF_PTS)
     d0 = case.get(who) or {}
     if case["channel"] == "dict" or (who != "d0" and case["channel"] != "file"):
         return f"dict {mrs} {mpts} {K.st(case['bc'])} {K.st(case['bp'])} {K.dict_args(d0)}"
@@ -331,7 +340,8 @@ def write_file_case(root, n, case):
             f.write(XMILE_SRC)
     else:
         with open(os.path.join(sub, f"c07pkg{n}", "mod.py"), "w") as f:
-            f.write(MODEL_SRC % {"start": float(DEF_RS[0]), "stop": float(DEF_RS[1]), "dt": DEF_RS[2] / 2.0, "consts": CONSTS,
+            mrs = mrs_of(case)
+            f.write(MODEL_SRC % {"start": float(mrs[0]), "stop": float(mrs[1]), "dt": mrs[2] / 2.0, "consts": CONSTS,
                                  "pts": {POINTS[k]: K.pts_val(v) for k, v in DEF_PTS.items()}, "vals": [float(DEF_CONST[k]) for k in range(3)]})
     def mgr(where, bc, bp, scns):
         m = {"model": f"c07pkg{n}/" + ("xm" if xmile else "mod"), "scenarios": scns}
@@ -384,6 +394,16 @@ def xm_project(root):
     return sub
 
 
+def isolate_process_state():
+    """a case is a fresh process as far as BPTK's module-level state goes: ScenarioManagerSd.__init__ has mutable default arguments
+    (`filenames=[]` is extended in place by the factory, so every file-based manager of the process shares ONE list that still names the
+    files of earlier cases); empty them, so that a finding does not depend on the cases that ran before and its replay reproduces it"""
+    from BPTK_Py.scenariomanager.scenario_manager_sd import ScenarioManagerSd
+    for d in (ScenarioManagerSd.__init__.__defaults__ or ()):
+        if isinstance(d, (list, dict)):
+            d.clear()
+
+
 def run_case(case, root, n):
     """real code; returns (view, results dict eq -> {t: v}, error)"""
     from BPTK_Py import bptk
@@ -392,6 +412,7 @@ def run_case(case, root, n):
     with contextlib.redirect_stdout(buf):
         if case["channel"] == "file":
             sub = write_file_case(root, n, case)
+            isolate_process_state()
             cwd = os.getcwd(); os.chdir(sub); sys.path.insert(0, sub)
             b = None
             try:
@@ -424,7 +445,7 @@ def run_case(case, root, n):
             os.chdir(sub); sys.path.insert(0, sub)
         b = bptk(); quiet_bptk_logging()
         try:
-            cfg = {"model": "c07xm/xm", "source": "c07xm/xm.stmx"} if xm else {"model": K.build(DEF_CONST, DEF_PTS, DEF_RS)}
+            cfg = {"model": "c07xm/xm", "source": "c07xm/xm.stmx"} if xm else {"model": K.build(DEF_CONST, DEF_PTS, mrs_of(case))}
             c, p = base_vals(case, "b", "b", case["bc"], case["bp"])
             if c: cfg["base_constants"] = c
             if p: cfg["base_points"] = p
@@ -495,7 +516,7 @@ def oracle(model, exp):
 
 
 def rand_case(rng, channel, model):
-    def store(n, lo=1, hi=9, p=2):
+    def store(n, lo=0, hi=9, p=2):          # wave 4: the value 0 (a falsy constant / table level) is generated too
         return {k: rng.range(lo, hi) for k in rng.shuffle(range(n))[:rng.range(1, n)]} if rng.chance(1, p) else {}
     def dct(runspecs=True):
         d = {}
@@ -503,12 +524,14 @@ def rand_case(rng, channel, model):
         if c: d["consts"] = c
         if p: d["pts"] = p
         if runspecs and rng.chance(2, 3):
-            if rng.chance(1, 2): d["start"] = rng.range(0, 2)
+            if rng.chance(1, 2): d["start"] = 0 if rng.chance(1, 2) else rng.range(0, 2)     # falsy target: back to start time 0
             if rng.chance(1, 2): d["stop"] = rng.range(3, 6)
             if rng.chance(1, 2): d["dt"] = rng.choice([1, 2])
         return d
     rs_ok = model == "dsl"                                   # the run-spec clause is for DSL models
     case = {"channel": channel, "model": model, "bc": store(3), "bp": store(2), "d0": dct(rs_ok), "files2": []}
+    if model == "dsl":
+        case["mrs"] = list(rng.choice(MRS_CHOICES))
     if channel in ("session", "rest") or (channel == "file" and rng.chance(1, 3)):
         case["d"] = dct(rs_ok)
     case["sib"] = dct(False) if rng.chance(1, 2) else {}
@@ -544,6 +567,10 @@ def rand_case(rng, channel, model):
             elif r < 3: strs.append([w, "c", k, "int"])
         for k in ps:
             if rng.chance(1, 5): strs.append([w, "p", k, "str"])
+    for w in ("d0", "d"):
+        for key in ("start", "stop"):
+            if (case.get(w) or {}).get(key) is not None and rng.chance(1, 3):
+                strs.append([w, "r", key, "int"])                    # run specs as Python ints (`starttime: 0`)
     case["str"] = strs
     return case
 
@@ -566,6 +593,14 @@ FIXED = [
     {"channel": "rest", "model": "xmile", "bc": {1: 2}, "bp": {}, "d0": {"pts": {0: 4}}, "d": {"consts": {1: 5}}, "sib": {"consts": {2: 6}}, "files2": []},
     {"channel": "dict", "model": "xmile", "bc": {0: 4}, "bp": {1: 6}, "d0": {"consts": {0: 7}, "pts": {0: 2}}, "files2": []},
     {"channel": "file", "model": "dsl", "bc": {0: 2}, "bp": {0: 3}, "d0": {}, "d": {"consts": {0: 5}, "pts": {0: 7}, "stop": 3}, "files2": [({1: 6}, {})]},
+    # wave 4: falsy override targets — the model starts at 1 (or an earlier setting moved the start), the override says 0 / 0.0
+    {"channel": "dict", "model": "dsl", "mrs": [1, 5, 2], "bc": {}, "bp": {}, "d0": {"start": 0}, "files2": []},
+    {"channel": "dict", "model": "dsl", "mrs": [1, 5, 2], "bc": {0: 0}, "bp": {}, "d0": {"start": 0, "consts": {1: 0}}, "files2": [], "str": [["d0", "r", "start", "int"], ["d0", "c", 1, "int"]]},
+    {"channel": "file", "model": "dsl", "mrs": [2, 6, 2], "bc": {}, "bp": {}, "d0": {"start": 0, "stop": 3}, "files2": [], "str": [["d0", "r", "start", "int"]]},
+    {"channel": "session", "model": "dsl", "mrs": [1, 5, 2], "bc": {}, "bp": {}, "d0": {}, "d": {"start": 0}, "files2": []},
+    {"channel": "session", "model": "dsl", "bc": {}, "bp": {}, "d0": {"start": 2}, "d": {"start": 0, "consts": {0: 0}}, "files2": [], "str": [["d", "r", "start", "int"]]},
+    {"channel": "rest", "model": "dsl", "mrs": [1, 5, 2], "bc": {}, "bp": {}, "d0": {}, "d": {"start": 0}, "files2": []},
+    {"channel": "rest", "model": "dsl", "bc": {}, "bp": {}, "d0": {"start": 1}, "d": {"start": 0, "consts": {2: 0}}, "files2": [], "str": [["d", "r", "start", "int"]]},
     # n files, YAML + JSON, a consistent duplicate, string-valued and int-valued settings
     {"channel": "file", "model": "dsl", "bc": {0: 4}, "bp": {}, "d0": {"consts": {1: 3}, "pts": {1: 6}}, "sib": {"consts": {2: 5}},
      "files2": [({2: 8}, {0: 2}), ({0: 4}, {}), ({1: 7}, {0: 2})], "fmt": ["yml", "json", "yml", "json"], "order": [3, 1, 0, 2],
@@ -636,11 +671,31 @@ def probe(root):
     facts["fileRunspecsKept"] = bool(v) and v["rs"] == (1, 3, 1)
     facts["ownsDictsDetail"] = probe_owns_dicts(root)
     facts["scenarioOwnsDicts"] = bool(facts["ownsDictsDetail"].get("dict")) and bool(facts["ownsDictsDetail"].get("file"))
+    try:
+        facts["overrideByPresence"] = probe_presence()
+    except Exception as e:
+        facts["overrideByPresence"] = False; facts["presence_error"] = f"{type(e).__name__}: {e}"
     return facts
 
 
-FACTS = ("runspecStartApplied", "fileRunspecsKept", "scenarioOwnsDicts")
-WITNESS = {"runspecStartApplied": "C07_witness_start", "fileRunspecsKept": "C07_witness_file", "scenarioOwnsDicts": "C07_witness_shared_base"}
+FACTS = ("runspecStartApplied", "fileRunspecsKept", "scenarioOwnsDicts", "overrideByPresence")
+WITNESS = {"runspecStartApplied": "C07_witness_start", "fileRunspecsKept": "C07_witness_file", "scenarioOwnsDicts": "C07_witness_shared_base",
+           "overrideByPresence": "C07_witness_falsy_override"}
+
+
+def probe_presence():
+    """an override is applied iff its key is present: start time 0 / 0.0 given at registration and as later settings on a scenario
+    whose model starts at 1"""
+    from BPTK_Py.scenariomanager.scenario import SimulationScenario
+    m = K.build(DEF_CONST, DEF_PTS, (1, 5, 2))
+    ok = True
+    for zero in (0, 0.0):
+        sc = SimulationScenario(dictionary={"runspecs": {"starttime": zero}}, name="p", model=m, scenario_manager_name="mf")
+        ok = ok and sc.starttime == 0 and sc.stoptime == 5.0
+        sc = SimulationScenario(dictionary={}, name="p", model=m, scenario_manager_name="mf")
+        sc.configure_settings({"runspecs": {"starttime": zero}})
+        ok = ok and sc.starttime == 0
+    return ok
 
 
 def gen_lean(f):
@@ -709,7 +764,7 @@ def check_case(case, root, n):
                 if ch == "file":
                     pairs.append((model_line(case, "sib"), sib["views"]["sib"][0]))
                 else:
-                    mrs = "/".join(map(str, def_rs(case["model"])))
+                    mrs = "/".join(map(str, mrs_of(case)))
                     pairs += [(f"mgr {mrs} {K.st(case['bc'])} {K.st(case['bp'])}", "ok"), (f"madd 0 {K.dict_args(case['d0'])}", "ok"),
                               (f"madd 1 {K.dict_args(case['sib'])}", "ok")]
                     if ch in ("session", "rest"):
@@ -834,7 +889,7 @@ def _run(chk, root):
     for key, (case, text) in first.items():
         small = shrink(case, key, root)
         vv = [t for k, t in check_case(small, root, 7778)[1] if k == key]
-        chk.add_finding(key, f"{small['channel']} channel, {small['model']} model, base_constants={small['bc']} base_points={small['bp']} scenario={small['d0']} "
+        chk.add_finding(key, f"{small['channel']} channel, {small['model']} model (own run specs {mrs_of(small)}), base_constants={small['bc']} base_points={small['bp']} scenario={small['d0']} "
                         f"sibling={small['sib']} settings={small.get('d')} files2={small['files2']} value forms={small['str']}: {vv[0] if vv else text}", {"case": small})
     if not facts["scenarioOwnsDicts"] and not any("sibling" in k or "manager-base" in k for k in first):
         chk.add_finding("shared-base-dict", "probe: a scenario without an own constants/points block carries the manager's base dictionary itself; configure_settings "
